@@ -10,14 +10,16 @@ import time
 
 VERIF = os.path.dirname(os.path.dirname(os.path.abspath(__file__)))
 SEEDED = os.path.join(VERIF, "seeded")
+REPO = os.environ.get("XT_REPO", "/repo")
 EXTRA = {"C01-m1": ["C06"], "C01-m2": ["C02"], "C02-m1": ["C07"], "C02-m2": ["C09", "C05"], "C03-m2": ["C08"], "C04-m1": ["C18"],
          "C05-m1": ["C09"], "C05-m2": ["C03"], "C06-m1": ["C01"], "C06-m2": ["C01", "C02"], "C09-m1": ["C02", "C10"], "C09-m2": ["C02"],
-         "C16-m2": ["C15"], "C17-m2": ["C07"], "C18-m1": ["C04"], "C18-m2": ["C02"]}
+         "C16-m2": ["C15"], "C17-m2": ["C07"], "C18-m1": ["C04"], "C18-m2": ["C02"],
+         "C04-m3": ["C12", "C11"], "C03-m4": ["C02"], "C02-m3": ["C17"], "C01-m3": ["C06", "C02"], "C13-m4": ["C16", "C15"], "C16-m3": ["C13"]}
 
 
 def main():
     ids = sys.argv[1:] or sorted(d for d in os.listdir(SEEDED) if os.path.isdir(os.path.join(SEEDED, d)))
-    st = subprocess.run(["git", "-C", "/repo", "status", "--short", "--untracked-files=no"], stdout=subprocess.PIPE).stdout.decode().strip()
+    st = subprocess.run(["git", "-C", REPO, "status", "--short", "--untracked-files=no"], stdout=subprocess.PIPE).stdout.decode().strip()
     if st:
         print("refusing: /repo has local changes:\n" + st)
         return 2
@@ -26,7 +28,7 @@ def main():
     for sid in ids:
         patch = os.path.join(SEEDED, sid, "patch.diff")
         prop = sid.split("-")[0]
-        if subprocess.run(["git", "-C", "/repo", "apply", patch]).returncode != 0:
+        if subprocess.run(["git", "-C", REPO, "apply", patch]).returncode != 0:
             results[sid] = {"error": "patch does not apply"}
             continue
         res = {}
@@ -55,7 +57,7 @@ def main():
                 res[p] = {"verdict": v, "seconds": round(time.time() - t0), "what": what}
                 print("%s %s %-36s %4ds  %s" % (sid, p, v, time.time() - t0, what[:110]), flush=True)
         finally:
-            subprocess.run(["git", "-C", "/repo", "checkout", "--", "."])
+            subprocess.run(["git", "-C", REPO, "checkout", "--", "."])
         results[sid] = res
         json.dump(results, open(path, "w"), indent=1, sort_keys=True)
     with open(os.path.join(SEEDED, "RESULTS.md"), "w") as f:
